@@ -525,7 +525,20 @@ type ZlibObj struct {
 
 func extZlibNewReader(vc *VC, fr *Frame, st *State, args []Val, pos token.Pos) []Outcome {
 	vc.assume("A-ZLIB")
-	_, s := vc.getStream(st, args[0])
+	var s Stream
+	if iv, ok := args[0].(IfaceVal); ok {
+		if bp, ok := iv.V.(PtrVal); ok && bp.Cell != nil {
+			if b, ok := vc.load(st, bp).(BufferObj); ok {
+				s = Stream{Data: b.Content, Base: b.Base, Len: b.Len, Pos: vc.idx(0)}
+			}
+		}
+	}
+	if s.Data.E == "" {
+		_, s = vc.getStream(st, args[0])
+		// the compressed data is what remains of the stream
+		s.Base = vc.iAdd(s.Base, s.Pos)
+		s.Len = vc.iSub(s.Len, s.Pos)
+	}
 	hdrOK := vc.ufApp("zlib_header_ok", SBool, s.Data, s.Base, s.Len)
 	var res []Outcome
 	s1 := st.Clone()
@@ -578,12 +591,12 @@ func extIoCopy(vc *VC, fr *Frame, st *State, args []Val, pos token.Pos) []Outcom
 	olen := vc.ufApp("zlib_inflate_len", is, z.Src.Data, z.Src.Base, z.Src.Len)
 	olen.Signed = true
 	s1.Assume(vc.iLe(vc.idx(0), olen, true))
-	vc.store(s1, bp, BufferObj{Content: out, Len: olen})
+	vc.store(s1, bp, BufferObj{Content: out, Base: vc.idx(0), Len: olen})
 	res = append(res, Outcome{St: s1, Ret: []Val{olen, Term{S: SErr, E: "err_nil"}}})
 	s2 := st
 	s2.Assume(Not(okc))
 	n := vc.freshTerm("ncopied", is)
-	vc.store(s2, bp, BufferObj{Content: vc.freshTerm("partial", ArrSort(is, vc.byteSort())), Len: n})
+	vc.store(s2, bp, BufferObj{Content: vc.freshTerm("partial", ArrSort(is, vc.byteSort())), Base: vc.idx(0), Len: n})
 	res = append(res, Outcome{St: s2, Ret: []Val{n, vc.newError(s2, "inflate")}})
 	return res
 }
@@ -594,7 +607,7 @@ func (vc *VC) bufferObj(st *State, p PtrVal) BufferObj {
 		return b
 	}
 	is := vc.intSort(64)
-	return BufferObj{Content: ConstArray(ArrSort(is, vc.byteSort()), vc.zeroByte()), Len: vc.idx(0)}
+	return BufferObj{Content: ConstArray(ArrSort(is, vc.byteSort()), vc.zeroByte()), Base: vc.idx(0), Len: vc.idx(0), Fresh: true}
 }
 
 func (vc *VC) zeroByte() Term {
@@ -611,13 +624,12 @@ func extBufferBytes(vc *VC, fr *Frame, st *State, args []Val, pos token.Pos) []O
 	c := vc.newCell("bufbytes", "heap", nil)
 	st.mem[c] = b.Content
 	// Bytes() of an empty never-written buffer is nil; otherwise non-nil
+	// Bytes() of a never-written buffer is nil; after writes of zero total length it may be either
 	isnil := Eq(b.Len, vc.idx(0))
-	if _, raw := vc.load(st, p).(BufferObj); raw {
-		// written at least once (possibly with zero bytes): bytes.Buffer keeps a non-nil
-		// slice only if it ever grew; treat as unknown when the length is zero
+	if !b.Fresh {
 		isnil = And(Eq(b.Len, vc.idx(0)), vc.freshTerm("bufnil", SBool))
 	}
-	return one(st, SliceVal{Base: PtrVal{Cell: c}, Off: vc.idx(0), Len: b.Len, Cap: b.Len, IsNil: isnil})
+	return one(st, SliceVal{Base: PtrVal{Cell: c}, Off: b.Base, Len: b.Len, Cap: b.Len, IsNil: isnil})
 }
 
 func extBufferWrite(vc *VC, fr *Frame, st *State, args []Val, pos token.Pos) []Outcome {
@@ -641,9 +653,9 @@ func extBufferWrite(vc *VC, fr *Frame, st *State, args []Val, pos token.Pos) []O
 		src = vc.zeroByte()
 	}
 	inNew := And(vc.iLe(b.Len, q, true), vc.iLt(q, vc.iAdd(b.Len, sl.Len), true))
-	body := Eq(Select(nc, q), Ite(inNew, src, Select(b.Content, q)))
-	st.Assume(Term{S: SBool, E: fmt.Sprintf("(forall ((%s %s)) %s)", q.E, is.String(), body.E)})
-	vc.store(st, p, BufferObj{Content: nc, Len: vc.iAdd(b.Len, sl.Len)})
+	body := Eq(Select(nc, q), Ite(inNew, src, Select(b.Content, vc.iAdd(b.Base, q))))
+	st.Fact(Term{S: SBool, E: fmt.Sprintf("(forall ((%s %s)) %s)", q.E, is.String(), body.E)})
+	vc.store(st, p, BufferObj{Content: nc, Base: vc.idx(0), Len: vc.iAdd(b.Len, sl.Len)})
 	return one(st, sl.Len, Term{S: SErr, E: "err_nil"})
 }
 
@@ -838,14 +850,26 @@ func extIoCopyN(vc *VC, fr *Frame, st *State, args []Val, pos token.Pos) []Outco
 	neg := vc.iLt(n, vc.idx(0), true)
 	enough := And(Not(neg), vc.iLe(n, rem, true))
 	mk := func(s0 *State, cnt Term) {
+		if b.Fresh {
+			// first write into an empty buffer: the content is a view of the stream bytes
+			vc.store(s0, bp, BufferObj{Content: s.Data, Base: vc.iAdd(s.Base, s.Pos), Len: cnt})
+			ns := s
+			ns.Pos = vc.iAdd(s.Pos, cnt)
+			s0.mem[p.Cell] = ns
+			s0.extWrites++
+			if vc.writeLog != nil {
+				vc.writeLog[p.Cell] = true
+			}
+			return
+		}
 		nc := vc.freshTerm("bufcontent", b.Content.S)
 		vc.nfresh++
 		q := Term{S: is, E: fmt.Sprintf("j!q%d", vc.nfresh), Signed: true}
 		inNew := And(vc.iLe(b.Len, q, true), vc.iLt(q, vc.iAdd(b.Len, cnt), true))
 		src := vc.streamByte(s, vc.iAdd(s.Pos, vc.iSub(q, b.Len)))
-		body := Eq(Select(nc, q), Ite(inNew, src, Select(b.Content, q)))
+		body := Eq(Select(nc, q), Ite(inNew, src, Select(b.Content, vc.iAdd(b.Base, q))))
 		s0.Fact(Term{S: SBool, E: fmt.Sprintf("(forall ((%s %s)) %s)", q.E, is.String(), body.E)})
-		vc.store(s0, bp, BufferObj{Content: nc, Len: vc.iAdd(b.Len, cnt)})
+		vc.store(s0, bp, BufferObj{Content: nc, Base: vc.idx(0), Len: vc.iAdd(b.Len, cnt)})
 		ns := s
 		ns.Pos = vc.iAdd(s.Pos, cnt)
 		s0.mem[p.Cell] = ns
